@@ -15,7 +15,7 @@ CONSTANTS
   EvictMode = "nodeps"
   ShortReorg = FALSE
   MaxBlocks = 2
-  MaxSteps = 4
+  MaxSteps = 3
   MaxBlockTxs = 1
   MaxReorgDepth = 0
   SimProfile = "mixed"
